@@ -124,6 +124,14 @@ theorem rsaMeta_roundtrip (items : List Bytes) (hn : items.length ≤ DatConsts.
   simp only [List.nil_append] at this
   rw [this]
 
+theorem lookup_mem (k v : Nat) : ∀ (l : List (Nat × Nat)), lookup k l = some v → (k, v) ∈ l
+  | [], h => by simp [lookup] at h
+  | (a, b) :: r, h => by
+    simp only [lookup] at h
+    split at h
+    · rename_i e; injection h with h; subst e; subst h; simp
+    · exact List.mem_cons_of_mem _ (lookup_mem k v r h)
+
 theorem ver_lt (dc : DC) (h : versionOk dc.major dc.minor = true) : dc.major < 65536 ∧ dc.minor < 65536 := by
   simp only [versionOk, DatConsts.versions] at h
   simp at h
